@@ -63,8 +63,8 @@ def scheduled():
     out.append(("roll-vs-get", "\n".join([
         "CASE roll-vs-get mfs=60 conc=1 cache=0 frag=0/1 dead=0 small=1000000000",
         "pre set 6b 7631", "pre get 6b",
-        "thread w 0 set 6c 40x41 ; set 6b 7632",
-        "thread r 100 get 6c ; sleep 500 ; get 6c ; get 6b",
+        "thread w 0 set 6c 40x41 ; set 6b 7632 ; sleep 400 ; del 6c ; del 6c",
+        "thread r 100 get 6c ; sleep 500 ; get 6c ; get 6b ; sleep 400 ; get 6c",
         "park w put:before_publish 400", "timeout 8000", "END"])))
     return out
 
@@ -115,7 +115,8 @@ def roll_schedules():
     # keys k=1 l=2; values v1=1 40xA=2 v2=3
     ev = ["WAppend 1 1", "WPublish", "WReturn", "GLookup 0 1", "GRead 0", "GReturn 0",
           "WAppend 2 2", "WRoll", "GLookup 0 2", "GRead 0", "GReturn 0", "WPublish", "WReturn",
-          "WAppend 1 3", "WPublish", "WReturn", "GLookup 0 2", "GRead 0", "GReturn 0", "GLookup 0 1", "GRead 0", "GReturn 0"]
+          "WAppend 1 3", "WPublish", "WReturn", "GLookup 0 2", "GRead 0", "GReturn 0", "GLookup 0 1", "GRead 0", "GReturn 0",
+          "WAppendDel 2", "WRoll", "WPublish", "WReturn", "WAppendDel 2", "WPublish", "WReturn", "GLookup 0 2", "GRead 0", "GReturn 0"]
     out["roll-vs-get"] = (ev, {99: ["P:0", "w"], 0: ["P:1", "r"]}, {1: "7631", 2: "41" * 40, 3: "7632"})
     return out
 
